@@ -74,7 +74,7 @@ type svc struct {
 func freePort(t *testing.T) int {
 	l, err := net.Listen("tcp", "127.0.0.1:0")
 	if err != nil {
-		t.Fatal(err)
+		t.Skipf("HARNESS: cannot listen on loopback: %v", err)
 	}
 	p := l.Addr().(*net.TCPAddr).Port
 	// also make sure the UDP port of the same number is free
@@ -87,15 +87,32 @@ func freePort(t *testing.T) int {
 	return p
 }
 
+// startSvc starts the service; ports are picked by bind-and-close, so another process on this
+// shared machine can take one in between: a service that does not come up is torn down and
+// retried on fresh ports. If it never comes up the test is skipped (the stage then lacks its
+// required label and the run is inconclusive, not a violation).
 func startSvc(t *testing.T, kl int, dir string, initial map[string][]byte) *svc {
+	var err error
+	for attempt := 0; attempt < 5; attempt++ {
+		var s *svc
+		if s, err = startSvcOnce(t, kl, dir, initial); err == nil {
+			return s
+		}
+		t.Logf("HARNESS: service start attempt %d: %v", attempt, err)
+	}
+	t.Skipf("HARNESS: service did not come up in 5 attempts: %v", err)
+	return nil
+}
+
+func startSvcOnce(t *testing.T, kl int, dir string, initial map[string][]byte) (*svc, error) {
 	s := &svc{kl: kl, path: filepath.Join(dir, "upsks.json"), done: make(chan bool, 1)}
 	s.cond = sync.NewCond(&s.mu)
 	if err := writeAtomically(s.path, credx.EncodeStore(initial, true)); err != nil {
-		t.Fatal(err)
+		return nil, err
 	}
 	var err error
 	if s.echoTCP, err = net.Listen("tcp", "127.0.0.1:0"); err != nil {
-		t.Fatal(err)
+		return nil, err
 	}
 	go func() {
 		for {
@@ -107,7 +124,7 @@ func startSvc(t *testing.T, kl int, dir string, initial map[string][]byte) *svc 
 		}
 	}()
 	if s.echoUDP, err = net.ListenUDP("udp", &net.UDPAddr{IP: net.IPv4(127, 0, 0, 1)}); err != nil {
-		t.Fatal(err)
+		return nil, err
 	}
 	go func() {
 		b := make([]byte, 2048)
@@ -130,7 +147,7 @@ func startSvc(t *testing.T, kl int, dir string, initial map[string][]byte) *svc 
 	}`, proto, s.port, s.port, base64.StdEncoding.EncodeToString(credx.IPSK(kl)), s.path, s.apiPort)
 	var cfg service.Config
 	if err := json.Unmarshal([]byte(cfgJSON), &cfg); err != nil {
-		t.Fatal(err)
+		return nil, err
 	}
 	core := zapcore.NewCore(zapcore.NewJSONEncoder(zap.NewProductionEncoderConfig()), zapcore.AddSync(io.Discard), zap.InfoLevel)
 	logger := zap.New(core, zap.Hooks(func(e zapcore.Entry) error {
@@ -147,23 +164,38 @@ func startSvc(t *testing.T, kl int, dir string, initial map[string][]byte) *svc 
 	}))
 	m, err := cfg.Manager(logger)
 	if err != nil {
-		t.Fatalf("service does not start on a valid store: %v", err)
+		t.Fatalf("SIG=C08/service/startup-failed service.Config.Manager refuses a valid store %q: %v", credx.EncodeStore(initial, true), err)
 	}
 	ctx, cancel := context.WithCancel(context.Background())
 	s.cancel = cancel
 	go func() { ok := m.Run(ctx); m.Close(); s.done <- ok }()
-	// wait until the API answers (bounded liveness, generous)
-	deadline := time.Now().Add(20 * time.Second)
+	// wait until the API answers (bounded liveness, generous); a service whose Run has returned
+	// could not bind its sockets
+	deadline := time.Now().Add(30 * time.Second)
 	for {
-		if _, err := s.apiList(); err == nil {
-			break
+		select {
+		case ok := <-s.done:
+			s.done <- ok
+			s.stop()
+			return nil, fmt.Errorf("service.Manager.Run returned %v before the API answered (port taken?)", ok)
+		default:
+		}
+		if l, err := s.apiList(); err == nil && credx.SameUsers(l, initial) {
+			select {
+			case ok := <-s.done: // somebody else's API answered on that port
+				s.done <- ok
+				s.stop()
+				return nil, fmt.Errorf("service.Manager.Run returned %v", ok)
+			default:
+			}
+			return s, nil
 		}
 		if time.Now().After(deadline) {
-			t.Fatal("HARNESS: API server did not come up within 20 s")
+			s.stop()
+			return nil, fmt.Errorf("API server did not answer within 30 s")
 		}
 		time.Sleep(20 * time.Millisecond)
 	}
-	return s
 }
 
 func (s *svc) stop() {
@@ -424,7 +456,7 @@ func TestServiceSIGUSR1(t *testing.T) {
 
 func runSvcPlan(t *testing.T, p svcPlan) string {
 	kl := p.KeyLen
-	dir, err := os.MkdirTemp(workDir(), "c08s-")
+	dir, err := os.MkdirTemp(workDir(), "verif-c08-s-")
 	if err != nil {
 		t.Fatal(err)
 	}
